@@ -796,7 +796,8 @@ class PyExec:
                 out.append((p, args[1]))
                 continue
             short = name.split('.')[-1]
-            fn = self.funcs.get(short) if (name == short or name.startswith('self.')) else None
+            cls_call = '.' in name and name.split('.')[0] in {n.name for n in ast.walk(self.tree) if isinstance(n, ast.ClassDef)}
+            fn = self.funcs.get(short) if (name == short or name.startswith('self.') or cls_call) else None
             if fn is None:
                 raise PyOutOfReach('call to %s without a model' % name)
             if depth > 8:
